@@ -469,7 +469,11 @@ def _validate_footprint(ctx):
 
 def correspondence(ctx):
     if _WS is not None:
-        _validate_footprint(ctx)
+        try:
+            _validate_footprint(ctx)
+        except Exception as e:  # noqa: BLE001 - e.g. the worker's argument tuple changed shape: a broken tie, go on
+            ctx.disagree("footprint-validation", None, "%s: %s" % (type(e).__name__, str(e)[:200]),
+                         "the generated footprint replayed on recording arrays")
         ctx.sample({"generated_footprints": [{k: w[k] for k in ("name", "writes", "reads", "serial_same")} for w in _WS]}, cap=8)
     else:
         # the translator refused the source (tie already recorded as broken): the run-time bit comparison
@@ -493,7 +497,7 @@ def search(ctx, hints):
     # replay holds an input confirmed twice, and report them as failing inputs
     seen = set()
     for h in hints:
-        if not h["stream"].startswith("parallel-vs-serial"):
+        if not h["stream"].startswith("parallel-vs-serial") or not h.get("input"):
             continue
         inp = h["input"]
         key = repr(inp)
